@@ -229,8 +229,13 @@ def verify_target(target, contract_dirs, config=None, root=None) -> UnitResult:
         index = SourceIndex(root)
         contracts = ContractIndex(index, contract_dirs)
         c = contracts.by_target[target]
-        cfg = {}
-        cfg.update(contracts.configs.get(c.module.name, {}))
+        cfg = {'attr_types': {}, 'class_invariants': {}}
+        for mn, mc in contracts.configs.items():
+            cfg['attr_types'].update(mc.get('attr_types', {}))
+            cfg['class_invariants'].update(mc.get('class_invariants', {}))
+        for k_, v_ in contracts.configs.get(c.module.name, {}).items():
+            if k_ not in ('attr_types', 'class_invariants'):
+                cfg[k_] = v_
         cfg.update(config or {})
         cfg = resolve_config(index, cfg)
         eng = Engine(index, contracts, cfg)
